@@ -248,13 +248,18 @@ def select_arm_grid():
              ("text", ("func", ["v"], S("s"))), ("same", ("func", ["v"], V))]
     R = SYM("r")
     uses = [("bare", R), (".fst", B(".", R, SYM("fst"))), (".0", B(".", R, I(0))), ("+1", B("+", R, one)), ("+str", B("+", R, S("x")))]
-    first = ("func", ["a", "b"], SYM("a"))
-    second = ("func", ["a", "b"], SYM("b"))
-    for key in ("x", "y", "z"):
+    for pn in (["a", "b"], ["name", "count"], ["z", "a"]):
+      first = ("func", pn, SYM(pn[0]))
+      second = ("func", pn, SYM(pn[1]))
+      wrap = ("func", pn, T(("n", SYM(pn[0])), ("c", SYM(pn[1]))))
+      for key in ("x", "y"):
+        yield ("doc", "selarm:func2wrap:%s:%s" % (",".join(pn), key)), [("let", "mode", S(key)), ("let", "pick", ("select", SYM("mode"), None, [("x", wrap), ("y", first)])),
+                                                                     ("let", "r", ("call", SYM("pick"), [S("s"), I(1)])), ("let", "u", B("+", B(".", SYM("r"), SYM("c")), one) if key == "x" else B("+", SYM("r"), S("t")))]
+      for key in ("x", "y", "z"):
         for un, use in uses:
-            yield ("doc", "selarm:func2:%s:%s" % (key, un)), [("let", "mode", S(key)), ("let", "pick", ("select", SYM("mode"), first, [("x", first), ("y", second)])),
+            yield ("doc", "selarm:func2:%s:%s:%s" % (",".join(pn), key, un)), [("let", "mode", S(key)), ("let", "pick", ("select", SYM("mode"), first, [("x", first), ("y", second)])),
                                                             ("let", "r", ("call", SYM("pick"), [I(1), S("s")])), ("let", "u", use)]
-            yield ("doc", "selarm:func2r:%s:%s" % (key, un)), [("let", "mode", S(key)), ("let", "pick", ("select", SYM("mode"), second, [("x", second), ("y", first)])),
+            yield ("doc", "selarm:func2r:%s:%s:%s" % (",".join(pn), key, un)), [("let", "mode", S(key)), ("let", "pick", ("select", SYM("mode"), second, [("x", second), ("y", first)])),
                                                              ("let", "r", ("call", SYM("pick"), [I(1), S("s")])), ("let", "u", use)]
     # a module picked by select and instantiated
     m1 = ("module", [("a", one)], None, [("let", "v", B(".", SYM("mod"), SYM("a")))])
@@ -305,6 +310,23 @@ def callback_name_grid():
         for on, op, use in ops:
             yield ("doc", "cbname:%s:%s" % (outer_n, on)), [("let", "item", outer), ("let", "l", op), ("let", "y", use), ("let", "z", after)]
             yield ("doc", "cbname-first:%s:%s" % (outer_n, on)), [("let", "item", outer), ("let", "z0", after), ("let", "l", op), ("let", "y", use), ("let", "z", after)]
+
+
+def callee_name_grid():
+    """An outer binding carries the name of a function's parameter; the function hands the parameter
+    back bare, in a list, in a tuple, nested; the result is used for what it is and the outer binding
+    afterwards. Added after a seeded change (holes of a callee not bound inside tuples) was missed."""
+    one = I(1)
+    P = SYM("p")
+    rets = [("bare", P, SYM("r")), ("list", L(P), B(".", SYM("r"), I(0))), ("tuple", T(("v", P)), B(".", SYM("r"), SYM("v"))),
+            ("nested-tuple", T(("w", T(("v", P)))), B(".", B(".", SYM("r"), SYM("w")), SYM("v"))), ("tuple-in-list", L(T(("v", P))), B(".", B(".", SYM("r"), I(0)), SYM("v"))),
+            ("select-arm", ("select", S("a"), None, [("a", T(("v", P)))]), B(".", SYM("r"), SYM("v")))]
+    for outer_n, outer, after in (("str", S("str"), B("+", P, S("x"))), ("list", L(S("a")), B("+", P, L(S("b")))), ("tuple", T(("a", one)), B(".", P, SYM("a")))):
+        for rn, ret, sel in rets:
+            for names in (["p"], ["q", "p"], ["p", "q"]):
+                args = [I(7) if n == "p" else S("other") for n in names]
+                yield ("doc", "calleename:%s:%s:%s" % (outer_n, rn, ",".join(names))), [
+                    ("let", "p", outer), ("let", "f", ("func", names, ret)), ("let", "r", ("call", SYM("f"), args)), ("let", "y", B("+", sel, one)), ("let", "z", after)]
 
 
 def nested_call_grid():
@@ -596,6 +618,8 @@ def run(ctx):
             yield ("doc", d, st)
         for d, st in function_result_use_grid():
             yield ("doc", d, st)
+        for d, st in callee_name_grid():
+            yield ("doc", d, st)
         for d, st in copy_override_grid():
             yield ("doc", d, st)
         for op in c01.OPS:
@@ -627,7 +651,7 @@ def run(ctx):
     # the same comparison with --no-strict on both sides (missing fields and unset variables are
     # NULL there): documented forms, the three grids, S1 and S2
     def ns_descs():
-        for d, st in itertools.chain(documented_forms(), function_grid(), nested_call_grid(), producer_consumer_grid(), select_arm_grid(), callback_name_grid(), function_result_use_grid(), copy_override_grid()):
+        for d, st in itertools.chain(documented_forms(), function_grid(), nested_call_grid(), producer_consumer_grid(), select_arm_grid(), callback_name_grid(), function_result_use_grid(), copy_override_grid(), callee_name_grid()):
             if d[1].startswith("fgrid2:"):
                 continue
             yield ("doc", d, st)
